@@ -551,6 +551,14 @@ def _parse_duration(value: str) -> timedelta:
     return timedelta(microseconds=int(seconds * 10**6))
 
 
+def _enum_to_json(enum_class: Type["Enum"], value: int) -> Union[str, int]:
+    """The name of an enum value or, for a value the enum does not define, its number."""
+    try:
+        return enum_class(value).name  # type: ignore
+    except ValueError:
+        return int(value)
+
+
 def _equal_up_to_nan(left: Any, right: Any) -> bool:
     """
     Equality which considers two nan values to be the same for the purposes of
@@ -1615,19 +1623,21 @@ class Message(ABC):
                         if isinstance(value, typing.Iterable) and not isinstance(
                             value, str
                         ):
-                            output[cased_name] = [enum_class(el).name for el in value]
+                            output[cased_name] = [
+                                _enum_to_json(enum_class, el) for el in value
+                            ]
                         else:
                             # transparently upgrade single value to repeated
-                            output[cased_name] = [enum_class(value).name]
+                            output[cased_name] = [_enum_to_json(enum_class, value)]
                     elif value is None:
                         if include_default_values:
                             output[cased_name] = value
                     elif meta.optional:
                         enum_class = field_types[field_name].__args__[0]
-                        output[cased_name] = enum_class(value).name
+                        output[cased_name] = _enum_to_json(enum_class, value)
                     else:
                         enum_class = field_types[field_name]  # noqa
-                        output[cased_name] = enum_class(value).name
+                        output[cased_name] = _enum_to_json(enum_class, value)
                 elif meta.proto_type in (TYPE_FLOAT, TYPE_DOUBLE):
                     if field_is_repeated:
                         output[cased_name] = [_dump_float(n) for n in value]
